@@ -908,13 +908,13 @@ func (f *Frame) zeroRow(et types.Type, ref string, h *Heap) {
 			fl := si.St.Field(i)
 			comp := u.fieldComp(et, fl.Name())
 			es := u.sortOf(fl.Type())
-			f.vc.setComp(h, comp, es, app("store", f.vc.cur(h, comp, es), ref, fmt.Sprintf("((as const (Array Int %s)) %s)", es, u.zeroOf(fl.Type()))))
+			f.vc.setComp(h, comp, es, app("store", f.vc.cur(h, comp, es), ref, f.constRow(es, u.zeroOf(fl.Type()))))
 		}
 		return
 	}
 	comp := u.cellComp(et)
 	es := u.sortOf(et)
-	f.vc.setComp(h, comp, es, app("store", f.vc.cur(h, comp, es), ref, fmt.Sprintf("((as const (Array Int %s)) %s)", es, u.zeroOf(et))))
+	f.vc.setComp(h, comp, es, app("store", f.vc.cur(h, comp, es), ref, f.constRow(es, u.zeroOf(et))))
 }
 
 func (f *Frame) alloc(et types.Type, comment, reach string, h *Heap) Val {
@@ -1360,4 +1360,16 @@ func (en *Engine) closedWorld(t types.Type, it *types.Interface, e string) strin
 		}
 	}
 	return or(ds...)
+}
+
+// constRow is the row of a fresh backing array: every cell holds the zero value. cvc5 accepts
+// "as const" only for literal values, so zero values built from uninterpreted constants
+// (sempty, fnnil) are stated by a quantified fact over a fresh row instead.
+func (f *Frame) constRow(es, zero string) string {
+	if !strings.Contains(zero, "sempty") && !strings.Contains(zero, "fnnil") {
+		return fmt.Sprintf("((as const (Array Int %s)) %s)", es, zero)
+	}
+	row := f.vc.fresh("zerorow", fmt.Sprintf("(Array Int %s)", es))
+	f.vc.assume(fmt.Sprintf("(forall ((i!z Int)) (! (= (select %s i!z) %s) :pattern ((select %s i!z))))", row, zero, row))
+	return row
 }
